@@ -183,7 +183,7 @@ func (t *table) insert(rows []row, check bool) *pgErr {
 // order, on a clone of the committed state: without checks to build the
 // transaction's view, with checks at COMMIT.
 type effect struct {
-	kind  byte // 'i' insert rows, 'd' delete row ids, 't' create table, 'x' create index, 'a' add column, 'r' drop table
+	kind  byte // 'i' insert rows, 'd' delete row ids, 't' create table, 'x' create index, 'a' add column, 'c' drop column, 'r' drop table
 	table string
 	rows  []row
 	ids   map[int64]bool
@@ -237,6 +237,19 @@ func (db *DB) apply(e effect, check bool) *pgErr {
 		for i, r := range t.rows {
 			t.rows[i].v = append(slices.Clone(r.v), e.def)
 		}
+	case 'c': // drop column: its values go, and (as in PostgreSQL) every index that mentions it
+		i, perr := t.col(e.col.Name)
+		if perr != nil {
+			return nil
+		}
+		t.cols = slices.Delete(slices.Clone(t.cols), i, i+1)
+		t.defs = slices.Delete(slices.Clone(t.defs), i, i+1)
+		for k, r := range t.rows {
+			if i < len(r.v) {
+				t.rows[k].v = slices.Delete(slices.Clone(r.v), i, i+1)
+			}
+		}
+		t.idx = slices.DeleteFunc(slices.Clone(t.idx), func(ix Index) bool { return slices.Contains(ix.Cols, e.col.Name) })
 	case 'r':
 		delete(db.tables, e.table)
 	}
